@@ -65,7 +65,7 @@ def cmd_run(src, prefix, props):
             finally:
                 sh(["git", "-C", REPO, "checkout", "--", "."])
                 sh(["git", "-C", ROOT, "checkout", "--", "evidence"])
-                sh(["git", "-C", ROOT, "checkout", "--", "lean/Whawty/Gen/Facts.lean", "lean/Whawty/Gen/Scan.lean", "lean/Whawty/Gen/CheckFile.lean", "lean/Whawty/Gen/Codec.lean", "lean/Whawty/Gen/Argon.lean", "lean/Whawty/Gen/HashStr.lean"])
+                sh(["git", "-C", ROOT, "checkout", "--", "lean/Whawty/Gen/Facts.lean", "lean/Whawty/Gen/Scan.lean", "lean/Whawty/Gen/CheckFile.lean", "lean/Whawty/Gen/Codec.lean", "lean/Whawty/Gen/Argon.lean", "lean/Whawty/Gen/HashStr.lean", "lean/Whawty/Gen/PolicyCond.lean"])
         res["alarms"] = sorted(p for p, r in res["checks"].items() if r["exit"] != 0)
         json.dump(res, open(os.path.join(dst, "result.json"), "w"), indent=1)
     return 0
